@@ -48,11 +48,29 @@ pub struct Source {
     pub stats: Rc<RefCell<SrcStats>>,
     /// log `src` records into the trace
     pub log: bool,
+    /// the kind of the terminal error of a faulty source: every kind but Interrupted is terminal
+    pub fault_kind: io::ErrorKind,
     pending_intr: u32,
     cur_intr: u32,
     decided_intr: bool,
     decisive: u64,
 }
+
+/// terminal error kinds a source or sink may fail with (anything but Interrupted)
+pub const FAULT_KINDS: [io::ErrorKind; 12] = [
+    io::ErrorKind::Other,
+    io::ErrorKind::UnexpectedEof,
+    io::ErrorKind::WouldBlock,
+    io::ErrorKind::TimedOut,
+    io::ErrorKind::BrokenPipe,
+    io::ErrorKind::InvalidData,
+    io::ErrorKind::ConnectionReset,
+    io::ErrorKind::WriteZero,
+    io::ErrorKind::InvalidInput,
+    io::ErrorKind::NotFound,
+    io::ErrorKind::PermissionDenied,
+    io::ErrorKind::ConnectionAborted,
+];
 
 impl Source {
     pub fn new(data: Vec<u8>, policy: Policy, seed: u64) -> Self {
@@ -68,6 +86,7 @@ impl Source {
             max_intr: 2,
             overrun_at: None,
             rng: crate::rng(seed, 0x5151),
+            fault_kind: FAULT_KINDS[(seed.wrapping_mul(0x9E3779B97F4A7C15) >> 33) as usize % FAULT_KINDS.len()],
             stats: Rc::new(RefCell::new(SrcStats::default())),
             log: true,
             pending_intr: 0,
@@ -135,10 +154,11 @@ impl Read for Source {
             }
             self.stats.borrow_mut().done = true;
             if self.faulty {
+                let kind = self.fault_kind;
                 if self.log {
-                    crate::trace::rec(json!({"ev":"src","offered":offered,"kind":"err","n":0,"intr":intr}));
+                    crate::trace::rec(json!({"ev":"src","offered":offered,"kind":"err","n":0,"intr":intr,"ekind":format!("{:?}", kind)}));
                 }
-                return Err(io::Error::new(io::ErrorKind::Other, "injected fault"));
+                return Err(io::Error::new(kind, "injected fault"));
             } else {
                 if self.log {
                     crate::trace::rec(json!({"ev":"src","offered":offered,"kind":"eof","n":0,"intr":intr}));
